@@ -568,10 +568,10 @@ func (obj *SparseIntVector) Import(filename string) error {
     } else {
       indices = append(indices, int(v))
     }
-    if v, err := strconv.ParseFloat(fields[1], 64); err != nil {
+    if v, err := parse_int(fields[1]); err != nil {
       return err
     } else {
-      values = append(values, int(v))
+      values = append(values, v)
     }
   }
   if err := checkSparseIndices(indices, n); err != nil {
